@@ -214,7 +214,9 @@ func (w *World) release(q *Req, v replyVariant) {
 	} else if se, ok := w.scn.(*scEnds); ok && q.pkt.Command == memd.CmdDcpStreamReq {
 		se.reopenFails[int(q.pkt.Vbucket)] = 0
 	}
-	w.cl.respond(q, v)
+	if !v.silent {
+		w.cl.respond(q, v)
+	}
 	w.mu.Unlock()
 }
 
